@@ -135,7 +135,7 @@ type spec struct {
 var ops = []string{"Select", "SelectDone", "SelectRowid", "IndexedSelect", "IndexedSelectEq", "PKSelect", "PKSelect-wr", "Columns", "Select-wr", "IndexedSelect-wr"}
 var exits = []string{"normal", "normal", "stop", "error-column", "error-table", "error-index", "fault", "panic"}
 var sideKinds = []string{"commit-attempt", "commit-attempt", "other-file-open-read-close", "peer-read", "peer-hold", "peer-release",
-	"same-process-open", "same-process-read", "same-process-close", "same-process-open-close", "probe", "same-handle-nested-call"}
+	"same-process-open", "same-process-read", "same-process-close", "same-process-open-close", "probe", "same-handle-nested-call", "same-process-close-then-read"}
 
 func TestC06Held(t *testing.T) {
 	vt.Exec(t, vt.Check[spec]{
@@ -334,6 +334,23 @@ func run(r *vt.Run, t vt.TB, s spec) {
 				}()
 				nesting = false
 				classes["side:nested-call-inside-callback"] = true
+			}
+		case "same-process-close-then-read":
+			// three handles: one is closed while the operation holds the lock
+			// (its descriptor has to stay open until nobody reads), then
+			// another one does a complete read of its own
+			h1, err1 := sqlittle.Open(path)
+			h2, err2 := sqlittle.Open(path)
+			if err1 == nil {
+				h1.Close()
+			}
+			if err2 == nil {
+				h2.Select("t", func(sqlittle.Row) {}, "a")
+				h2.Close()
+			}
+			classes["side:same-process-close-then-read"] = true
+			if inOp {
+				lockLost = "Close of one handle, then a read on another"
 			}
 		case "same-process-open-close":
 			if h, err := sqlittle.Open(path); err == nil {
